@@ -524,6 +524,10 @@ def reference(spec, obs_arr, order, fd, samples, w, chosen, derived):
 
 
 def run(ctx):
+    C.source_tie(ctx, 'C18', [
+        dict(file='taurex/util/math.py', cls='OnlineVariance', method='update', coq='gen_ov_update',
+             params=['self.count', 'self.wcount', 'self.wcount2', 'self.mean', 'self.M2', 'value', 'weight'],
+             results=['self.count', 'self.wcount', 'self.mean', 'self.M2'])])
     part_a(ctx)
     part_b(ctx)
 
